@@ -23,6 +23,10 @@ pub struct SwapOp {
     /// value of SwapInput's can_go_over_fluctuation flag (no band is configured in these worlds)
     #[serde(default)]
     pub over: bool,
+    /// owner action just before this swap: 1 = the market is closed and re-opened, 2 = the margin-engine setting is
+    /// pointed elsewhere and back, 3 = fee ratios / caps are updated. None of them is a trade.
+    #[serde(default)]
+    pub admin: u8,
 }
 
 #[derive(Clone, Debug, Serialize, Deserialize)]
@@ -64,8 +68,8 @@ pub fn reserve_strategy() -> impl Strategy<Value = (u8, u128, u128)> {
 
 pub fn swap_strategy() -> impl Strategy<Value = SwapOp> {
     // flat tuple, no unions (see ops::op_strategy)
-    (any::<bool>(), any::<bool>(), 0u8..8, any::<u32>(), 0u8..6, 0u8..4, any::<u16>(), 0u8..5, any::<bool>()).prop_map(
-        |(input, add, class, k, limit_mode, r, rk, nb, over)| SwapOp {
+    (any::<bool>(), any::<bool>(), 0u8..8, any::<u32>(), 0u8..6, 0u8..4, any::<u16>(), 0u8..5, any::<bool>(), 0u8..40).prop_map(
+        |(input, add, class, k, limit_mode, r, rk, nb, over, adm)| SwapOp {
             input,
             add,
             class,
@@ -74,6 +78,7 @@ pub fn swap_strategy() -> impl Strategy<Value = SwapOp> {
             ret: if r == 3 { Some(rk) } else { None },
             new_block: nb == 4,
             over,
+            admin: if adm >= 37 { adm - 36 } else { 0 },
         },
     )
 }
@@ -180,4 +185,47 @@ pub fn quote_query(r: &Resolved) -> QueryMsg {
 
 pub fn exec_swap(sim: &mut VSim, r: &Resolved, limit: u128) -> Result<cosmwasm_std::Response, String> {
     sim.exec(ENGINE, swap_msg(r, limit))
+}
+
+/// Owner actions between swaps (see `SwapOp::admin`). Returns a description of what changed if the curve state
+/// (reserves, net position) is not exactly what it was before them.
+pub fn admin_churn(sim: &mut crate::vsim::VSim, admin: u8) -> Option<String> {
+    use crate::vsim::{ENGINE, OWNER};
+    use margined_perp::margined_vamm::ExecuteMsg;
+    if admin == 0 {
+        return None;
+    }
+    let st0 = sim.state();
+    let cfgmsg = |me: Option<String>, toll: Option<u128>| ExecuteMsg::UpdateConfig {
+        base_asset_holding_cap: None,
+        open_interest_notional_cap: None,
+        toll_ratio: toll.map(cosmwasm_std::Uint128::new),
+        spread_ratio: None,
+        fluctuation_limit_ratio: None,
+        margin_engine: me,
+        insurance_fund: None,
+        pricefeed: None,
+        spot_price_twap_interval: None,
+    };
+    match admin {
+        1 => {
+            let _ = sim.exec(OWNER, ExecuteMsg::SetOpen { open: false });
+            let _ = sim.exec(OWNER, ExecuteMsg::SetOpen { open: true });
+        }
+        2 => {
+            let _ = sim.exec(OWNER, cfgmsg(Some("engine-typo".into()), None));
+            let _ = sim.exec(OWNER, cfgmsg(Some(ENGINE.into()), None));
+        }
+        _ => {
+            let _ = sim.exec(OWNER, cfgmsg(None, Some(sim.d / 1000)));
+        }
+    }
+    let st1 = sim.state();
+    if (st0.quote_asset_reserve, st0.base_asset_reserve, st0.total_position_size) != (st1.quote_asset_reserve, st1.base_asset_reserve, st1.total_position_size) || !st1.open {
+        return Some(format!(
+            "owner action {} changed the curve: reserves ({}, {}) net {} open {} -> ({}, {}) net {} open {}",
+            admin, st0.quote_asset_reserve, st0.base_asset_reserve, st0.total_position_size, st0.open, st1.quote_asset_reserve, st1.base_asset_reserve, st1.total_position_size, st1.open
+        ));
+    }
+    None
 }
